@@ -570,11 +570,38 @@ func randHash(r *vh.RNG) pmtref.Hash {
 	return h
 }
 
+// alike: hand-made leaf hashes that agree in a prefix (kind 0), a suffix (kind 1) or in all but one
+// or two bytes (kind 2): real transaction ids never look alike, a message may contain anything.
+func alike(r *vh.RNG, n int) []pmtref.Hash {
+	base := r.Bytes(32)
+	kind, k := r.Intn(3), 1+r.Intn(29)
+	out := make([]pmtref.Hash, n)
+	for i := range out {
+		var h pmtref.Hash
+		copy(h[:], base)
+		switch kind {
+		case 0:
+			copy(h[k:], r.Bytes(32-k))
+			h[31], h[30] = byte(i), byte(i>>8)
+		case 1:
+			copy(h[:32-k], r.Bytes(32-k))
+			h[0], h[1] = byte(i), byte(i>>8)
+		default:
+			h[k], h[(k+1)%32] = byte(i), byte(i>>8)
+		}
+		out[i] = h
+	}
+	return out
+}
+
 func honest(r *vh.RNG, n int, mode int) (leaves []pmtref.Hash, sel []bool) {
 	leaves = make([]pmtref.Hash, n)
 	sel = make([]bool, n)
 	for i := range leaves {
 		leaves[i] = randHash(r)
+	}
+	if r.Chance(1, 3) && n < 65536 {
+		leaves = alike(r, n)
 	}
 	switch mode {
 	case 0: // empty
@@ -996,6 +1023,80 @@ func deepFamily(r *vh.RNG, perCount int, coqEvery int) {
 	mergeSink(s, "deep")
 }
 
+// ---------- messages whose traversal meets very many problems ----------
+// Every inner node with equal children, every node visited after the hashes or the bits ran out is one
+// more reason to reject; the number of such events in one traversal is made to cross 2^8, 2^15, 2^16
+// and 2^17 (a latch is a latch however often it is set).  (a) k adjacent pairs of equal leaves, pairs
+// pairwise distinct, everything descended and matched: exactly k inner nodes with equal children;
+// (b) all flag bits set (every node descended) with only 0, 1 or 2 hashes, for every declared count
+// in windows around those powers of two: the event count grows by about two per transaction.
+func manyProblems(r *vh.RNG, coqEvery int) {
+	t0 := time.Now()
+	defer func() { rep.Extra["many_problems_seconds"] = time.Since(t0).Seconds() }()
+	s := newSink()
+	k := 0
+	expect := func(name string, count uint32, hashes []pmtref.Hash, flags []byte, reasons ...string) {
+		o, res := monitor(s, count, hashes, flags)
+		s.hist["many:"+name]++
+		ok := false
+		for _, x := range reasons {
+			ok = ok || (!res.OK && res.Reason == x)
+		}
+		if !ok {
+			s.violate("C12:harness:many_expectation", "many-problems family: the reference does not reject for the expected reason", replayOf(count, hashes, flags, o, res))
+		}
+		k++
+		if coqEvery > 0 && k%coqEvery == 0 && count <= 600 {
+			addCase(count, hashes, flags, o, true, "many:"+name)
+		}
+	}
+	pairs := []int{1, 2, 3, 127, 128, 129, 255, 256, 257, 32767, 32768, 32769, 65535, 65536, 65537}
+	if cfg.Thorough() || cfg.Search {
+		pairs = append(pairs, 131071, 131072, 131073)
+	}
+	for _, np := range pairs {
+		n := 2 * np
+		leaves := make([]pmtref.Hash, n)
+		for i := 0; i < np; i++ {
+			h := randHash(r)
+			h[0], h[1], h[2], h[3] = byte(i), byte(i>>8), byte(i>>16), 0xee
+			leaves[2*i], leaves[2*i+1] = h, h
+		}
+		sel := make([]bool, n)
+		for i := range sel {
+			sel[i] = true
+		}
+		t := pmtref.Build(leaves, sel)
+		expect("equal_pairs", uint32(n), t.Hashes(nil), pmtref.Pack(t.Flags(nil)), "equal_children")
+	}
+	// all-ones flags, few hashes
+	windows := [][2]int{{1, 600}, {32700, 32850}}
+	if cfg.Thorough() || cfg.Search {
+		windows = append(windows, [2]int{16350, 16450}, [2]int{65450, 65650}, [2]int{131000, 131200})
+	}
+	A, B := randHash(r), randHash(r)
+	for _, w := range windows {
+		for n := w[0]; n <= w[1]; n++ {
+			// a fully descended tree has 2n-1+(single-child nodes) flag bits: 2n+64 ones are more than enough
+			flags := make([]byte, (2*n+64+7)/8)
+			for i := range flags {
+				flags[i] = 0xff
+			}
+			for nh := 0; nh <= 2; nh++ {
+				if nh > n {
+					continue
+				}
+				if n > 700 && nh != 1 && n%8 != 0 {
+					continue
+				}
+				hs := []pmtref.Hash{A, B}[:nh]
+				expect(fmt.Sprintf("all_ones_%d_hashes", nh), uint32(n), hs, flags, "hashes_exhausted", "bits_exhausted", "unused_flag_byte")
+			}
+		}
+	}
+	mergeSink(s, "many")
+}
+
 // ---------- fixed edge cases ----------
 func edgeCases(r *vh.RNG) {
 	s := newSink()
@@ -1151,6 +1252,7 @@ func main() {
 		skeletonFamily(rng.Fork("skel"), 12, 0)
 		mutationStream(rng.Fork("mut"), 4000, 5000, 1<<30, 0, 0)
 		deepFamily(rng.Fork("deep"), 40, 0)
+		manyProblems(rng.Fork("many"), 0)
 	case cfg.Thorough():
 		// count <= 7, all hash lists over three letters, all flag strings of <= 2 bytes
 		exhaustive("scope{A,B,H(A,A)}", []pmtref.Hash{A, B, AA}, 7, upTo, allBytes, 3, rng.Fork("ex1"))
@@ -1158,6 +1260,7 @@ func main() {
 		skeletonFamily(rng.Fork("skel"), 10, 6)
 		mutationStream(rng.Fork("mut"), 3000, 5000, 151, 4, 120)
 		deepFamily(rng.Fork("deep"), 20, 97)
+		manyProblems(rng.Fork("many"), 131)
 	default:
 		// quick: the same scope with the second flag byte restricted to 8 values (all 2-byte strings in the thorough tier)
 		second := []int{0, 1, 3, 0x15, 0x2a, 0x7f, 0x80, 0xff}
@@ -1165,12 +1268,14 @@ func main() {
 		skeletonFamily(rng.Fork("skel"), 9, 3)
 		mutationStream(rng.Fork("mut"), 600, 3000, 67, 4, 100)
 		deepFamily(rng.Fork("deep"), 4, 61)
+		manyProblems(rng.Fork("many"), 211)
 	}
 	rep.Extra["exhaustive_and_mutation_seconds"] = time.Since(t0).Seconds()
 	rep.Sample(map[string]interface{}{"family": "edge", "what": "CVE-2012-2459 shapes, count 0 / MaxTxnCount / MaxTxnCount+1 / 2^32-1, megabyte flag strings"}, 4)
 	rep.Sample(map[string]interface{}{"family": "exhaustive", "what": "count <= 7 x hash lists (<= count+1) over {A,B,H(A,A)} x flag strings <= 2 bytes"}, 4)
 	rep.Sample(map[string]interface{}{"family": "skeleton", "what": "every partial-tree shape for n <= 9 (12 in search): honest, padding bits set, 1-2 extra flag bytes, dropped byte/hash, extra hash, equal children forced at every two-child node of every height"}, 4)
 	rep.Sample(map[string]interface{}{"family": "deep", "what": "proofs for 1-3 positions (far left, far right, around 65535/65536, random) of blocks of 65535..MaxTxnCount transactions (heights 16..22): honest, equal children forced at every height on the way down, generic mutations; interleaved: two PartialBlocks created before either is extracted"}, 4)
+	rep.Sample(map[string]interface{}{"family": "many", "what": "k = 1..65537 (131073) adjacent pairs of equal leaves, all descended; all-ones flags with 0/1/2 hashes for every declared count in 1..600 and 32700..32850 (thorough: also around 2^14, 2^16, 2^17): the number of problem events of one traversal crosses 2^8, 2^15, 2^16, 2^17"}, 4)
 	rep.Sample(map[string]interface{}{"family": "mutation", "what": "honest proofs (reference builder) with bit flips, dropped/duplicated/reordered/corrupted hashes, altered count, truncated/extended flags"}, 4)
 	if !cfg.Search {
 		_, err := cases.Flush()
